@@ -124,7 +124,10 @@ def extreme_keys(chk):
     n = 0
     for kind in KINDS:
         fam = family(kind)
-        for (shape, nn, m) in (("twice", 140000, 16), ("few", 1, 2000), ("few", 30, 2000), ("few", 5, 10000)):
+        shapes_ = [("twice", 140000, 16), ("few", 1, 2000), ("few", 30, 2000), ("few", 5, 10000)]
+        if fam in ("dens", "rev"):
+            shapes_.append(("twice", 140000, 70001))   # more than 2^16 bins, about as many distinct items
+        for (shape, nn, m) in shapes_:
             if fam == "ord2":
                 if shape == "few" and nn < 4:
                     continue
